@@ -18,6 +18,10 @@ THEOREMS = [
     "BeyondVerif.C17.accel_of_dv_magnitude",
     "BeyondVerif.C17.kepManDv_magnitude",
     "BeyondVerif.C17.orbit_frame_origin",
+    "BeyondVerif.C17.orbit_frame_origin_same_centre",
+    "BeyondVerif.C17.orbit_frame_relative_position",
+    "BeyondVerif.C17.origin_displaced_if_linked_to_parent_centre",
+    "BeyondVerif.C17.frameToC_same_centre",
     "BeyondVerif.C17.orbit_frame_roundtrip",
     "BeyondVerif.C17.orbit_frame_roundtrip_back",
     "BeyondVerif.C17.reregistration_wins",
@@ -72,7 +76,8 @@ THEOREMS = [
 LEVEL_TEXT = ("Lean theorems about code translated from the source on every run: to_qsw/to_tnw (local.py) are proper rotations (M M^T = 1, det = 1) with rows "
               "(r^ | v^, w^ x first, w^) for every state with r x v != 0; a QSW/TNW/inertial maneuver vector is projected with exactly its magnitude and "
               "components, every spelling the constructors accept for a local frame selecting that frame's matrix (name tables regenerated from the constructors, "
-              "the `in (...)` tests, to_local and orbit2frame); the orbit-attached frame puts its orbit at the origin and round-trips, no operation of a session writes "
+              "the `in (...)` tests, to_local and orbit2frame); the orbit-attached frame puts its orbit at the origin — whatever body the orbit is around and whatever the parent, with the centre of the new frame linked as "
+              "orbit2frame's add_link call says (read from the AST) — and round-trips, no operation of a session writes "
               "to the reference object and repeated conversions read the same; over integer microseconds, for every partition of a span "
               "into positive steps (fixed or adaptive) ImpulsiveMan.check fires in exactly one step, the one containing the date (delay < that step), for each "
               "of several maneuvers independently; ContinuousMan.check is start <= t < stop and the step loop, with the Butcher nodes/weights regenerated and stage dates "
@@ -97,7 +102,8 @@ TRUSTED = [
     "Tr.expr (dkep2aol, ImpulsiveMan.check, ContinuousMan.check -> Generated/ManWindow.lean), TrFn (i, node arguments of _cartesian_to_keplerian -> Generated/KepPlane{F,R}.lean)",
     "harness/props/C17.py extractors, each refusing shapes it does not know: Butcher nodes as exact float ratios and weights over a common denominator from the live "
     "KeplerNum.BUTCHER (-> Generated/ManWindow.lean); the loop nesting of KeplerNum._accel and its attraction term matched verbatim (-> Generated/AccelLoopSrc.lean, "
-    "Generated/AccelSrc{F,R}.lean); constructor normalisation, `in (...)` tuples, to_local's if/elif chain, orbit2frame's check (-> Generated/FrameNames.lean)",
+    "Generated/AccelSrc{F,R}.lean); constructor normalisation, `in (...)` tuples, to_local's if/elif chain, orbit2frame's check, the centre orbit2frame links the new centre under "
+    "(first argument of center_obj.add_link) (-> Generated/FrameNames.lean)",
     "lean/templates/Vec3.tpl (numpy cross / norm / matrix-vector products on 3-vectors), lean/templates/Man.tpl (to_local dispatch, projection, attached frame, accelOf, "
     "kepContAccel), lean/BeyondVerif/Model/ManWin.lean (step loop of KeplerNum._iter/_make_step, divRound = datetime._divide_and_round, thrustUnits), "
     "lean/BeyondVerif/Model/AccelLoop.lean (interpreter of the loop program), lean/BeyondVerif/Model/FrameName.lean (reading of the name tables), "
@@ -129,6 +135,8 @@ NOT_COVERED = [
     "the theorems and the oracle speak about the integration grid (real steps) only; interpolation is property C09",
     "an Orbit without propagator given as reference of orbit2frame raises UnknownPropagatorError at the first conversion (hasattr(offset, 'propagate') is true): not in the "
     "statement; a rotating parent (ITRF) gives other QSW/TNW axes (velocity relative to the rotating frame): the docstring asks for an inertial parent",
+    "frames attached to orbits around other bodies: positions of the centres relative to one another are taken from the library (solarsystem / JPL propagators, "
+    "property C18); with a local orientation and the default parent the QSW/TNW axes are those of the orbit as seen from the Earth (sv.copy(frame=parent)), as the code has it",
     "frame names the code does not know as local (RSW, LVLH, RTN, any typo) are silently taken as 'the axes of the orbit's frame' by ImpulsiveMan / ContinuousMan "
     "(other_names_select_identity states it; the property statement speaks of QSW/TNW/inertial only; CCSDS files: property C13)",
 ]
@@ -148,11 +156,14 @@ RULE = ("correspondence: to_local on random elliptic/hyperbolic/retrograde state
         "4 Butcher tableaux; `step * c` for every node on random steps (1 us .. 1000 s, odd, tiny); delivered delta-v of gravity-free propagations with all four tableaux "
         "(burns of whole steps incl. from the first date, at stage dates +-1 ms, anywhere) vs the quadrature model; KeplerNum._accel with 0..4 attracting bodies (Earth, Moon, "
         "Sun, fixed fake bodies, repeated) and 0..3 maneuvers (on, off, impulsive); 29+ frame names through ImpulsiveMan, ContinuousMan, to_local, orbit2frame; inclination / "
-        "node slices vs the keplerian form — all against the compiled Lean model; non-trivial = non-zero vector / increment; distinct = distinct request. "
+        "node slices vs the keplerian form; frames attached (orbit2frame / as_frame, orientation None / QSW / TNW, default / EME2000 / MOD / the body's own frame as parent) "
+        "to orbits around the Moon and the Sun (solarsystem frames), companion given in the orbit's frame, EME2000 or the parent, vs the model with centres — all against the compiled Lean model; non-trivial = non-zero vector / increment; distinct = distinct request. "
         "oracle: theorem statements on the real API incl. per-step velocity jumps of KeplerNum vs a maneuver-free step from the same state, delivered delta-v of "
         "continuous burns in a gravity-free KeplerNum (incl. from the first date), thrust part of _accel vs number of bodies, every case variant of QSW/TNW vs the upper-case "
         "spelling (bitwise), maneuver objects re-used on another state vs fresh ones, arguments in keplerian/spherical form left untouched, date_pos placing start/median/stop, "
-        "references of three classes in five frames unchanged after conversions and repeated conversions bitwise equal, re-registration under other parents, "
+        "references of three classes in five frames unchanged after conversions and repeated conversions bitwise equal, re-registration under other parents, origin (zero position and velocity) and companion's relative position (difference of the two states in the parent "
+        "frame, rotated by the axes of the definition) for reference orbits around the Moon, the Sun (solarsystem) and Mars, Venus, Moon, Sun of the JPL kernel of "
+        "tests/data/jpl (in a process of its own), "
         "|KeplerianContinuousMan.accel| x duration = |dkep2dv|, realised da/di/dOmega vs requested to first order")
 
 LOCAL_PY = os.path.join(core.REPO, "beyond", "frames", "local.py")
@@ -397,11 +408,28 @@ def _orbit2frame_tags(tree_frames, tree_orient):
     return [e.value for e in t.comparators[0].elts], _n(t.left) == "orientation.upper()"
 
 
+def _orbit2frame_centre_link(tree_frames):
+    """which centre the Center of the new frame is linked under: the first argument of `center_obj.add_link(...)`"""
+    fn = py2lean.find_function(tree_frames, "orbit2frame")
+    tail = [_n(x) for x in fn.body if not isinstance(x, ast.If) and not (isinstance(x, ast.Expr) and isinstance(x.value, ast.Constant))]
+    if len(tail) != 4 or tail[0] != "center_obj=center.Center(name,body=parent.center.body)" or tail[2] != "center_obj.offset_frame=ref_orbit.frame" \
+            or tail[3] != "returnFrame(name,orientation,center_obj,exists_warning)":
+        raise py2lean.Untranslatable("orbit2frame: the creation of the centre changed: " + str(tail))
+    call = [x for x in fn.body if isinstance(x, ast.Expr) and isinstance(x.value, ast.Call) and _n(x.value.func) == "center_obj.add_link"]
+    if len(call) != 1 or call[0].value.keywords or len(call[0].value.args) != 3:
+        raise py2lean.Untranslatable("orbit2frame: center_obj.add_link(...) not found / changed")
+    a0, a1, a2 = [_n(a) for a in call[0].value.args]
+    if (a1, a2) != ("ref_orbit.frame.orientation", "ref_orbit") or a0 not in ("ref_orbit.frame.center", "parent.center"):
+        raise py2lean.Untranslatable(f"orbit2frame: unknown link of the centre: add_link({a0}, {a1}, {a2})")
+    return "CentreLink.refFrameCentre" if a0 == "ref_orbit.frame.center" else "CentreLink.parentCentre"
+
+
 def extract_frame_names(tree_man, tree_local, tree_frames, tree_orient):
     imp_up, cont_up = _ctor_upper(tree_man, "ImpulsiveMan"), _ctor_upper(tree_man, "ContinuousMan")
     imp_tags, cont_tags = _proj_tags(tree_man, "ImpulsiveMan.dv", "dv"), _proj_tags(tree_man, "ContinuousMan.accel", "accel")
     table = _to_local_table(tree_local)
     o2f_tags, o2f_up = _orbit2frame_tags(tree_frames, tree_orient)
+    link = _orbit2frame_centre_link(tree_frames)
     kc = py2lean.find_function(tree_man, "KeplerianContinuousMan.__init__")
     first = kc.body[0]
     if not (isinstance(first, ast.Assign) and _n(first.targets[0]) == "kwargs['frame']" and isinstance(first.value, ast.Constant) and isinstance(first.value.value, str)
@@ -429,6 +457,11 @@ def extract_frame_names(tree_man, tree_local, tree_frames, tree_orient):
             f"def orbit2frameUpper : Bool := {b(o2f_up)}\n"
             "/-- `KeplerianContinuousMan.__init__`: `kwargs[\"frame\"] = …` -/\n"
             f"def kepContForcedFrame : List Char := {_lstr(first.value.value)}\n\n"
+            "/-- a centre the `Center` of a frame made by `orbit2frame` can be linked under -/\n"
+            "inductive CentreLink where\n  /-- the centre of the frame the reference orbit is expressed in (`ref_orbit.frame.center`) -/\n  | refFrameCentre\n"
+            "  /-- the centre of the `parent` argument (`parent.center`) -/\n  | parentCentre\n  deriving DecidableEq, Repr\n\n"
+            "/-- `orbit2frame`: first argument of `center_obj.add_link(<centre>, ref_orbit.frame.orientation, ref_orbit)` -/\n"
+            f"def centreLinkedTo : CentreLink := {link}\n\n"
             "end BeyondVerif.Generated.FrameNames\n")
 
 
@@ -862,6 +895,68 @@ def correspondence(ctx):
     return out
 
 
+# ---------------------------------------------------------------- reference orbits around other bodies
+
+_BODY_FRAMES = {}
+
+
+def body_frame(name):
+    """frame centred on a solar-system body (beyond.env.solarsystem.get_frame), created once per process"""
+    if name == "Earth":
+        from beyond.frames.frames import get_frame
+        return get_frame("EME2000")
+    if name not in _BODY_FRAMES:
+        from beyond.env.solarsystem import get_frame as ss_frame
+        _BODY_FRAMES[name] = ss_frame(name)
+    return _BODY_FRAMES[name]
+
+
+BODY_ORBITS = {"Earth": (7.0e6, 4.2e7), "Moon": (1.8e6, 6e6), "Sun": (6e10, 2.5e11), "Mars": (3.6e6, 2e7), "Venus": (6.4e6, 3e7)}
+
+
+def gen_body_orbit(rng, body, frame, d0):
+    """a Kepler orbit around `body`, expressed in the frame centred on it"""
+    from beyond.orbits import Orbit
+    from beyond.propagators.kepler import Kepler
+    lo, hi = BODY_ORBITS[body]
+    kep = [rng.uniform(lo, hi), rng.uniform(0, 0.3), rng.uniform(0.1, 3.0), rng.uniform(0, 6.28), rng.uniform(0, 6.28), rng.uniform(0, 6.28)]
+    return kep, Orbit(kep, d0, "keplerian", frame, Kepler())
+
+
+def zero_in(frame, date, work):
+    """state of the centre of `frame` seen from the frame `work`"""
+    from beyond.orbits import StateVector
+    return list(map(float, StateVector([0.0] * 6, date, "cartesian", frame).copy(frame=work)))
+
+
+def centre_case(rng, d0, body, ref_frame, parents, use_as_frame=True):
+    """one frame attached to an orbit around `body`; returns what the correspondence / the oracle need"""
+    import numpy as np
+    from beyond.dates import timedelta
+    from beyond.frames.frames import orbit2frame
+    kep, ref = gen_body_orbit(rng, body, ref_frame, d0)
+    ori = rng.choice([None, None, "QSW", "TNW"])
+    pname, parent = rng.choice(parents)
+    _FRAME_SEQ[0] += 1
+    name = f"C17B{_FRAME_SEQ[0] % 5}"
+    kw = {"exists_warning": False}
+    if ori:
+        kw["orientation"] = ori
+    if parent is not None:
+        kw["parent"] = parent
+    if use_as_frame and rng.random() < 0.5:
+        ref.as_frame(name, **kw)
+    else:
+        orbit2frame(name, ref, **kw)
+    date = d0 + timedelta(seconds=q6(rng.uniform(0, 7200)))
+    cart = ref.propagate(date).copy(form="cartesian")
+    delta = np.array([rng.uniform(-1, 1) * 10 ** rng.uniform(0, 5) for _ in range(3)] + [rng.uniform(-1, 1) * 10 ** rng.uniform(-3, 1) for _ in range(3)])
+    comp = cart.copy()
+    comp[:] = np.asarray(cart) + delta
+    return {"kep": kep, "ref": ref, "ori": ori, "parent_name": pname or "default", "parent": parent, "name": name, "date": date, "cart": cart, "comp": comp, "delta": delta,
+            "meta": {"body": body, "ref_frame": str(ref_frame), "ref_kep": kep, "orientation": ori, "parent": pname or "default (EME2000)", "frame": name, "date": str(date)}}
+
+
 # ---------------------------------------------------------------- correspondence, second part (quadrature, _accel, names, references)
 
 NAME_POOL = ["QSW", "TNW", "qsw", "tnw", "Qsw", "qSW", "QsW", "Tnw", "tNW", "tnW", "TnW", None, "EME2000", "MOD", "ITRF", "RSW", "rsw", "LVLH", "RTN", "rtn",
@@ -1177,6 +1272,36 @@ def correspondence2(ctx, out, add, d0):
                     out.fail("c17-frame", "conversion through a frame attached to an Orbit / Ephem / StateVector reference differs from the model evaluated on an untouched copy of the reference",
                              inp, observed=real, expected=m)
             add(" ".join(["c17." + direction, parts[0]] + ftoks(refc) + ftoks(xin)), chk6)
+    # 14. frames attached to orbits around another body (Moon, Sun): which centre the new centre hangs under
+    from beyond.frames.frames import get_frame as _gf
+    for _ in range(ctx.n(24, 600)):
+        forget_frames()
+        body = rng.choice(["Moon", "Moon", "Sun", "Earth"])
+        fr = body_frame(body)
+        parents = [(None, None), (None, None), ("EME2000", _gf("EME2000")), (body, fr), ("MOD", _gf("MOD"))]
+        c = centre_case(rng, d0, body, fr, parents)
+        # the common frame: the parent for a local orientation, the reference's own frame for orientation=None
+        work = (c["parent"] or _gf("EME2000")) if c["ori"] else fr
+        pframe = c["parent"] or _gf("EME2000")
+        src = rng.choice([fr, _gf("EME2000"), pframe])       # the frame the converted state is given in
+        x_src = c["comp"].copy(frame=src)
+        real = list(map(float, x_src.copy(frame=c["name"])))
+        c_ref, c_par, c_x = zero_in(fr, c["date"], work), zero_in(pframe, c["date"], work), zero_in(src, c["date"], work)
+        refw = [a - b for a, b in zip(map(float, c["cart"].copy(frame=work)), c_ref)]
+        xw = [a - b for a, b in zip(map(float, x_src.copy(frame=work)), c_x)]
+        scale_r = max(norm(c_ref[:3]), norm(c_x[:3]), norm(c_par[:3])) + norm(refw[:3])
+        scale_v = max(norm(c_ref[3:]), norm(c_x[3:]), norm(c_par[3:])) + norm(refw[3:])
+        inp = dict(c["meta"], state_given_in=str(src), companion_offset=c["delta"].tolist())
+        out.count(key=("centre", body, c["name"], str(c["date"]), tuple(c["kep"])), kind=f"centre-{body}-{c['ori']}", parent=c["parent_name"], given_in=str(src))
+
+        def chkc(rep, real=real, inp=inp, sr=scale_r, sv=scale_v):
+            if not rep[0].isdigit():
+                out.fail("c17-frame-centre", "model rejected the request: " + rep, inp); return
+            m = [b2f(t) for t in rep.split()]
+            if not (all(abs(a - b) <= 1e-9 * sr + 1e-6 for a, b in zip(real[:3], m[:3])) and all(abs(a - b) <= 1e-9 * sv + 1e-9 for a, b in zip(real[3:], m[3:]))):
+                out.fail("c17-frame-centre", "conversion into a frame attached to an orbit around another body differs from the model (centre linked as read from orbit2frame)",
+                         inp, observed=real, expected=m)
+        add(" ".join(["c17.toc", (c["ori"] or "-")] + ftoks(c_ref) + ftoks(c_par) + ftoks(c_x) + ftoks(refw) + ftoks(xw)), chkc)
     # 13. inclination / node direction slices of the cartesian -> keplerian conversion
     for _ in range(ctx.n(100, 3000)):
         x = gen_state(rng)
@@ -1953,6 +2078,104 @@ def oracle_reregistration_parent(out, rng, N):
                          inp, observed=loc.tolist(), expected=expl.tolist())
 
 
+def check_centre_case(out, c, fam_suffix):
+    """the clause 'a frame attached to an orbit places that orbit at its origin', and a companion's relative position against an
+    independent computation (difference of the two states in the parent frame, rotated by the axes the definition gives)"""
+    import numpy as np
+    from beyond.frames.frames import get_frame as _gf
+    name, cart, comp, delta, ori = c["name"], c["cart"], c["comp"], c["delta"], c["ori"]
+    own = np.array(cart.copy(frame=name), dtype=float)
+    dist = float(np.linalg.norm(np.array(cart.copy(frame="EME2000"))[:3])) + float(np.linalg.norm(np.array(cart)[:3]))
+    speed = float(np.linalg.norm(np.array(cart.copy(frame="EME2000"))[3:])) + float(np.linalg.norm(np.array(cart)[3:]))
+    tol_r, tol_v = 1e-9 * dist + 1e-6, 1e-9 * speed + 1e-9
+    inp = dict(c["meta"])
+    out.count(key=("centre-origin", fam_suffix, name, str(c["date"]), tuple(c["kep"])), kind=f"centre-origin-{fam_suffix}", orientation=str(ori), parent=c["parent_name"])
+    if np.abs(own[:3]).max() > tol_r or np.abs(own[3:]).max() > tol_v:
+        out.fail(f"orbit-frame-origin-other-centre-{fam_suffix}", "the orbit a frame is attached to is not at that frame's origin (reference orbit around another body than the parent's)",
+                 inp, observed=own.tolist(), expected=[0.0] * 6)
+        return
+    rel = np.array(comp.copy(frame=name), dtype=float)
+    if ori:
+        pframe = c["parent"] or _gf("EME2000")
+        cp, xp = np.array(cart.copy(frame=pframe), dtype=float), np.array(comp.copy(frame=pframe), dtype=float)
+        m = np.array(axes_expected(ori, list(cp)))
+        exp = np.concatenate([m @ (xp[:3] - cp[:3]), m @ (xp[3:] - cp[3:])])
+    else:
+        exp = np.array(delta, dtype=float)
+    out.count(key=("centre-rel", fam_suffix, name, str(c["date"]), tuple(c["kep"])), kind=f"centre-companion-{fam_suffix}", orientation=str(ori), parent=c["parent_name"])
+    if np.abs(rel[:3] - exp[:3]).max() > tol_r or np.abs(rel[3:] - exp[3:]).max() > tol_v:
+        out.fail(f"orbit-frame-companion-other-centre-{fam_suffix}", "a companion of the reference orbit is not seen at its relative position from the frame attached to that orbit",
+                 dict(inp, companion_offset=list(map(float, delta))), observed=rel.tolist(), expected=exp.tolist())
+    back = np.array(comp.copy(frame=name).copy(frame=cart.frame), dtype=float)
+    if np.abs(back[:3] - np.array(comp)[:3]).max() > tol_r or np.abs(back[3:] - np.array(comp)[3:]).max() > tol_v:
+        out.fail(f"orbit-frame-roundtrip-other-centre-{fam_suffix}", "frame of the orbit -> attached frame -> frame of the orbit changes the state", inp,
+                 observed=back.tolist(), expected=np.array(comp, dtype=float).tolist())
+
+
+def oracle_other_centres(out, rng, N):
+    """frames attached (orbit2frame / as_frame, default and explicit parents, orientation None / QSW / TNW) to orbits around the Moon and
+    the Sun (beyond.env.solarsystem.get_frame), with an Earth orbit as control"""
+    from beyond.dates import Date
+    from beyond.frames.frames import get_frame as _gf
+    d0 = Date(2020, 3, 1, 12)
+    for _ in range(N):
+        forget_frames()
+        body = rng.choice(["Moon", "Moon", "Sun", "Earth"])
+        fr = body_frame(body)
+        parents = [(None, None), (None, None), ("EME2000", _gf("EME2000")), (body, fr), ("MOD", _gf("MOD"))]
+        check_centre_case(out, centre_case(rng, d0, body, fr, parents), body)
+
+
+def jpl_worker(seed, n):
+    """runs in a process of its own (beyond.env.jpl keeps process-wide singletons and re-registers 'Moon' / 'Sun'): frames attached to
+    orbits around Mars, Venus, the Moon and the Sun of the JPL kernel of tests/data/jpl; prints the Outcome as JSON"""
+    import json
+    import random
+    import warnings
+    warnings.simplefilter("ignore")
+    from beyond.config import config
+    from beyond.dates import Date
+    from beyond.frames.frames import get_frame as _gf
+    d = os.path.join(core.REPO, "tests", "data", "jpl")
+    config.update({"env": {"jpl": {"files": [os.path.join(d, f) for f in ("de403_2000-2020.bsp", "pck00010.tpc", "gm_de431.tpc")]}}})
+    from beyond.env import jpl
+    jpl.create_frames()
+    rng = random.Random(f"C17-jpl-{seed}")
+    out = Outcome()
+    d0 = Date(2015, 6, 1, 12)
+    for _ in range(n):
+        forget_frames()
+        body = rng.choice(["Mars", "Mars", "Venus", "Moon", "Sun"])
+        fr = jpl.get_frame(body)
+        parents = [(None, None), (None, None), ("EME2000", _gf("EME2000")), (body, fr)]
+        check_centre_case(out, centre_case(rng, d0, body, fr, parents), "jpl-" + body)
+    print("C17JPL " + json.dumps({"cases": out.cases, "keys": sorted(map(str, out.keys)), "dist": out.dist, "failures": out.failures}, default=str))
+
+
+def oracle_jpl_centres(out, rng, N):
+    import json
+    import subprocess
+    import sys
+    code = f"import sys; sys.path.insert(0, {core.VERIF!r}); from harness import core; from harness.props import C17; C17.jpl_worker({rng.randrange(10**6)}, {N})"
+    env = dict(os.environ, PYTHONPATH=core.REPO + os.pathsep + os.environ.get("PYTHONPATH", ""))
+    try:
+        p = subprocess.run([sys.executable, "-c", code], capture_output=True, text=True, timeout=300, env=env)
+        line = [ln for ln in p.stdout.split("\n") if ln.startswith("C17JPL ")]
+        if not line:
+            out.fail("orbit-frame-other-centre-jpl-raises", "frames attached to orbits around the bodies of a JPL kernel: the run raised", {"kernel": "tests/data/jpl/de403_2000-2020.bsp"},
+                     observed=(p.stderr or p.stdout)[-600:])
+            return
+        r = json.loads(line[0][7:])
+    except subprocess.TimeoutExpired:
+        out.fail("orbit-frame-other-centre-jpl-raises", "frames attached to orbits around the bodies of a JPL kernel: no answer within 300 s", {"kernel": "tests/data/jpl/de403_2000-2020.bsp"})
+        return
+    out.cases += r["cases"]
+    out.keys |= set(r["keys"])
+    for k, v in r["dist"].items():
+        out.dist[k] = out.dist.get(k, 0) + v
+    out.failures += r["failures"]
+
+
 def oracle(ctx, widened):
     out = Outcome()
     rng = ctx.rng
@@ -1968,6 +2191,8 @@ def oracle(ctx, widened):
     oracle_names(out, rng, 60 if big else 6)
     oracle_frame_references(out, rng, 80 if big else 12)
     oracle_reregistration_parent(out, rng, 150 if big else 25)
+    oracle_other_centres(out, rng, 200 if big else 30)
+    oracle_jpl_centres(out, rng, 120 if big else 16)
     return out
 
 
